@@ -44,6 +44,11 @@ def cases(seed, tier):
                     out.append({"group": "held", "kind": "ivp32", "functional": "solve_ivp", "method": method, "holder": holder, "history": h,
                                 "seed": sub_seed(seed, "c19x", k)})
                     k += 1
+        # debug mode switched on (its extra checks must not keep anything alive either)
+        for fn in ("symeig", "svd", "solve", "rootfinder", "quad"):
+            for h in hs:
+                out.append({"group": "held", "kind": "debugmode", "functional": fn, "holder": "debug", "history": h, "seed": sub_seed(seed, "c19x", k)})
+                k += 1
         # absolute retention with LARGE states: whatever stays alive after the results are dropped must be small compared with one state
         for method in ("rk45", "rk23", "rk4", "euler"):
             for dtn in ("float32", "float64"):
@@ -124,6 +129,30 @@ def make_call(desc):
             yt = solve_ivp(fcn, ts, y0, params=params, method=desc["method"])
             _consume([yt], [a, y0], h, tg)
         return call, kept, [a, y0, ts]
+    if kind == "debugmode":
+        from xitorch.linalg import symeig, svd
+        n = 5
+        P = torch.randn(n, n, generator=tg, dtype=DT).requires_grad_()
+        B = torch.randn(n, 2, generator=tg, dtype=DT).requires_grad_()
+        a = (0.5 + torch.rand(2, generator=tg, dtype=DT)).requires_grad_()
+        fn = desc["functional"]
+
+        def call():
+            with xitorch.enable_debug():
+                if fn == "symeig":
+                    outs = list(symeig(xitorch.LinearOperator.m(P + P.T, is_hermitian=True), neig=2))
+                    outs[1] = outs[1] * outs[1]
+                elif fn == "svd":
+                    U, S, Vh = svd(xitorch.LinearOperator.m(P), 2)
+                    outs = [S, (U * U).sum(0)]
+                elif fn == "solve":
+                    outs = [solve(xitorch.LinearOperator.m(P @ P.T + n * torch.eye(n, dtype=DT), is_hermitian=True), B)]
+                elif fn == "rootfinder":
+                    outs = [rootfinder(lambda y, a_: y - 0.4 * torch.tanh(a_ * y) - 0.3, torch.zeros(2, dtype=DT), params=(a,))]
+                else:
+                    outs = [quad(lambda x, a_: a_ * torch.exp(-x), torch.tensor(0.0, dtype=DT), torch.tensor(1.0, dtype=DT), params=(a,), n=7)]
+                _consume(outs, [P, B, a], h, tg)
+        return call, None, [P, B, a]
     if kind == "jacop":
         from xitorch.grad import jac
         n = 7
